@@ -530,6 +530,9 @@ def run(ctx):
     lines = [case_line(s, c[2]) for s, c in zip(srcs, cases)]
     # pass 1: analyses only (cannot hang); model on the implementation's own dump
     p1 = core.run_lines([exe, "nocost"], lines)
+    # tie of the PROVED mirrors of YaccFirsts::new / YaccFollows::new (C17/MirrorProofs.v) to the code
+    from checks import c17_mirror
+    c17_mirror.run_part(ctx, cases, p1=p1, account=False)
     model = core.run_lines([mexe], p1)
     impl1 = [Impl(l) for l in p1]
     models = [Model(l) for l in model]
